@@ -9,7 +9,8 @@ RULE = ("MC: every row of the abstract (configuration, request) tables of Ingres
         "design-level facts of Ingress.tla (first inbound match, only inbound resolved, Allow sound, 404/405 without effect). "
         "GEN: TLC prints every configuration with its complete request set; every configuration is written as a Hookaidofile, "
         "compiled by the real config package, booted through app.VerifBoot, and every abstract row is sent as concrete requests "
-        "(plain rendering + seeded variants: dot-segments, doubled / trailing slashes, percent-encoding, Host case / port / "
+        "(plain rendering + seeded variants sent as raw paths: dot-segments incl. a final '..' / '.' climbing out of another route's "
+        "path, %2e%2e, doubled / trailing slashes, percent-encoding, Host case / port / "
         "trailing dot / IPv6 literal, RemoteAddr v4 / v6 / v4-mapped, with and without port, at prefix edges, comma lists) through "
         "the production ingress handler with a queue dump before and after. TV: IngressTrace requires status, Allow set, number, "
         "route and targets of the new messages = Outcome(cfg, req), and an untouched queue otherwise. exhaustive=true refers to the "
@@ -56,6 +57,14 @@ def run(ctx):
     ing.require(ctx, cov["noninbound_skipped"] > 0, "no request whose criteria all held on a non-inbound route")
     ing.require(ctx, cov["first_of_several"] > 0, "no request matched by more than one inbound route")
     ing.require(ctx, max(len(o["cfg"]) for o in table) >= 3 and min(len(o["cfg"]) for o in table) == 1, "configuration sizes")
+
+    # raw-path renderings that separate a complete clean-up of the request path from a partial one: a final ".." that
+    # climbs out of ANOTHER route's path (plain, percent-encoded, with trailing slash), "." / empty final segments
+    pv = ing.count_variants(files, ["path:climb-route", "path:climbpct-route", "path:climbslash-route", "path:climb", "path:enddot",
+                                    "path:dotdot", "path:dslash", "path:tslash", "path:pct", "host:dotport", "ip:noport"])
+    ctx.cov["counters"]["variants"] = pv
+    for n, v in pv.items():
+        ing.require(ctx, v > 0, "concretisation variant %s never sent" % n)
 
     ing.triage(ctx, res)
 
